@@ -276,21 +276,68 @@ func ImportedBy(p *buildgen.Project, group string) (kinds []string) {
 	return
 }
 
-// ExpectedUnused is the list the statement demands.
+// ExpectedUnused is the list the statement demands (per build file, in declaration order; for a dual-build
+// project the lists of the two files are concatenated here, but see CheckUnused: their interleaving is free).
 func ExpectedUnused(p *buildgen.Project) []Dep {
 	var out []Dep
-	for _, e := range p.Build.Entries {
-		if e.Kind == buildgen.KindString && len(ImportedBy(p, e.Group)) == 0 {
-			out = append(out, Dep{e.Group, e.Artifact, e.Scope})
+	for _, b := range p.Builds() {
+		for _, e := range b.Entries {
+			if e.Kind == buildgen.KindString && len(ImportedBy(p, e.Group)) == 0 {
+				out = append(out, Dep{e.Group, e.Artifact, e.Scope})
+			}
 		}
 	}
 	return out
 }
 
 // CheckUnused compares the unused report with the statement.
+//
+// Dual-build project (pom.xml and build.gradle in one directory): the declared dependencies are those of both
+// files. The statement fixes the order inside one dependencies block (declaration order) but not how two build
+// files of one project are enumerated, so the report is split by the file that declares each entry (artifact ids
+// of the two files are disjoint by construction) and each part is compared, in order, with that file's expected
+// sub-list; any interleaving of the two parts is accepted. An entry that neither file declares is a mismatch.
 func CheckUnused(p *buildgen.Project, observed []Dep) ([]DepMismatch, DepStats) {
+	if p.Second == nil {
+		return checkUnusedOf(p, p.Build, observed, "")
+	}
+	owner := map[string]int{}
+	builds := p.Builds()
+	for i, b := range builds {
+		for _, e := range b.Entries {
+			if e.Artifact != "" {
+				owner[e.Artifact] = i
+			}
+		}
+		for _, e := range b.Elsewhere {
+			owner[e.Artifact] = i
+		}
+	}
+	parts := make([][]Dep, len(builds))
+	var total DepStats
+	for pos, d := range observed {
+		i, ok := owner[d.Artifact]
+		if !ok {
+			return []DepMismatch{{Sig: "dual/unused/entry-declared-by-neither-file",
+				Msg: fmt.Sprintf("unused: position %d holds %s, which neither the pom.xml nor the build.gradle declares", pos, d)}}, total
+		}
+		parts[i] = append(parts[i], d)
+	}
+	var all []DepMismatch
+	for i, b := range builds {
+		mm, st := checkUnusedOf(p, b, parts[i], "dual/")
+		total.Expected += st.Expected
+		total.Matched += st.Matched
+		total.OptionalMatched += st.OptionalMatched
+		total.SetAside += st.SetAside
+		total.Skipped += st.Skipped
+		all = append(all, mm...)
+	}
+	return all, total
+}
+
+func checkUnusedOf(p *buildgen.Project, b *buildgen.Build, observed []Dep, sigPrefix string) ([]DepMismatch, DepStats) {
 	var st DepStats
-	b := p.Build
 	rest, n := setAside(b, observed)
 	st.SetAside = n
 	var items []item
@@ -329,5 +376,11 @@ func CheckUnused(p *buildgen.Project, observed []Dep) ([]DepMismatch, DepStats) 
 		}
 		items = append(items, it)
 	}
-	return align(b.System, "unused", items, rest, &st), st
+	mm := align(b.System, "unused", items, rest, &st)
+	for i := range mm {
+		if !mm[i].Shared {
+			mm[i].Sig = sigPrefix + mm[i].Sig
+		}
+	}
+	return mm, st
 }
